@@ -25,14 +25,15 @@
 (*     levels, body kind and method rotate                                 *)
 (*  D  three parameters: three different (loc/req) kinds, shapes (b1, b2)  *)
 (*     free and b3 = (b1 + 2 b2 + a1) % 9 + 1 (an orthogonal array over    *)
-(*     the shapes), with (b1+b2+a1+a2+a3) % 9 = 0                          *)
+(*     the shapes), names that fold to three different identifiers, with   *)
+(*     (b1+b2+a1+a2+a3) % 6 = 0                                            *)
 (*  E  one parameter declared at path level AND repeated at operation      *)
 (*     level (the override case): all (loc/req, shape)                     *)
 (*                                                                         *)
-(* thorough: A complete, B x 4 type rotations, C all pairs x 2 rotations,  *)
-(* D all (b1, b2) x 2 rotations, E x every type, and                       *)
+(* thorough: A complete, B x 6 type rotations, C all pairs x 3 rotations,  *)
+(* D all (b1, b2) x 4 rotations, E x every type, and                       *)
 (*  F  four parameters: four different (loc/req) kinds, shapes (b1, b2)    *)
-(*     free, b3 / b4 derived, 4 rotations.                                 *)
+(*     free, b3 / b4 derived, four different folded names, 8 rotations.    *)
 (* mini (design checks with real invariants): thin slices of A, B, C, E.   *)
 (*                                                                         *)
 (* Excluded (stated): array-typed path parameters (the property gives      *)
@@ -61,6 +62,10 @@ Body(k, required) == [kind |-> BodySeq[k], required |-> required]
 MethodFor(k, n) == IF k = 1 THEN MethodSeq[(n % 5) + 1] ELSE BodyMethods[(n % 3) + 1]
 S(n) == ToString(n)
 SameSpot(a1, b1, a2, b2) == LocReq[a1].in = LocReq[a2].in /\ b1 = b2
+\* `page-size` and `pageSize` fold to the same identifier; in the strata D and F all names fold differently (operations whose
+\* arguments collide do not compile - C01's finding; the pair stratum C and E keep those cases)
+FoldIdx(b) == IF ShapeSeq[b] = "camel" THEN 2 ELSE b
+Apart(bs) == \A i, j \in DOMAIN bs : i < j => FoldIdx(bs[i]) # FoldIdx(bs[j])
 
 FamA(full) ==
   {MkOp("a" \o S(a) \o "x" \o S(b) \o "x" \o S(c) \o "x" \o S(lv), MethodSeq[((a + b + c + lv) % 5) + 1], <<P(a, b, c, lv)>>, Body(1, FALSE)) :
@@ -96,7 +101,7 @@ FamD(mod, rots) ==
         Ord(<<P(a1, b1, c(a1, b1, 1), l(a1, b1)), P(a2, b2, c(a2, b2, 2), l(a2, b2)), P(a3, b3, c(a3, b3, 3), l(a3, b3))>>), Body(k, TRUE)) :
      t \in {u \in Triples \X (1..NB) \X (1..NB) \X (0..(rots - 1)) :
               LET b3 == ((u[2] + 2 * u[3] + u[1][1]) % NB) + 1 IN
-              /\ ~SameSpot(u[1][1], u[2], u[1][2], u[3]) /\ ~SameSpot(u[1][1], u[2], u[1][3], b3) /\ ~SameSpot(u[1][2], u[3], u[1][3], b3)
+              /\ Apart(<<u[2], u[3], b3>>)
               /\ (u[2] + u[3] + u[1][1] + u[1][2] + u[1][3]) % mod = 0}}
 
 FamE(types) ==
@@ -117,7 +122,7 @@ FamF(rots) ==
      t \in {u \in Quads \X (1..NB) \X (1..NB) \X (0..(rots - 1)) :
               LET b3 == ((u[2] + 2 * u[3] + u[1][1]) % NB) + 1  b4 == ((2 * u[2] + u[3] + u[1][2] + u[4]) % NB) + 1
                   bb == <<u[2], u[3], b3, b4>> IN
-              \A i, j \in 1..4 : i < j => ~SameSpot(u[1][i], bb[i], u[1][j], bb[j])}}
+              Apart(bb)}}
 
 FamMini ==
   {o \in FamA(FALSE) : o.params[1].level = "op"}
@@ -126,6 +131,6 @@ FamMini ==
   \cup {o \in FamE(1) : o.params[1].shape \in {"plain", "kebab"}}
 
 Family == CASE Tier = "mini"     -> FamMini
-            [] Tier = "quick"    -> FamA(FALSE) \cup FamB(1) \cup FamC(4, 1) \cup FamD(9, 1) \cup FamE(1)
-            [] Tier = "thorough" -> FamA(TRUE) \cup FamB(4) \cup FamC(1, 2) \cup FamD(1, 2) \cup FamE(NC) \cup FamF(4)
+            [] Tier = "quick"    -> FamA(FALSE) \cup FamB(1) \cup FamC(4, 1) \cup FamD(6, 1) \cup FamE(1)
+            [] Tier = "thorough" -> FamA(TRUE) \cup FamB(6) \cup FamC(1, 3) \cup FamD(1, 4) \cup FamE(NC) \cup FamF(8)
 =============================================================================
